@@ -136,6 +136,141 @@ Qed.
 Lemma sp_brq_not_brace u ne c r : (c =? g_lbrace) = false -> sp_brq u ne (c :: r) = SOk false (c :: r).
 Proof. intros H. unfold sp_brq. cbn [sp_braced starts_with]. rewrite H. rewrite andb_false_r. reflexivity. Qed.
 
+(* ---- hexadecimal digits and the escapes ---- *)
+Definition hexd (d : N) : Prop := hex_digit d = true.
+Definition nohex (r : list N) : Prop := match r with c :: _ => hex_digit c = false | [] => True end.
+Lemma span_hex_spec l : l = fst (span_hex l) ++ snd (span_hex l) /\ Forall hexd (fst (span_hex l)) /\ nohex (snd (span_hex l)).
+Proof.
+  induction l as [|c l IH]; cbn [span_hex]; [repeat split; constructor|].
+  destruct (hex_digit c) eqn:Ec.
+  - destruct (span_hex l) as [ds r']. cbn [fst snd] in *. destruct IH as [IH1 [IH2 IH3]]. repeat split.
+    + cbn [app]. f_equal. exact IH1.
+    + constructor; assumption.
+    + exact IH3.
+  - cbn [fst snd]. repeat split; [constructor|exact Ec].
+Qed.
+Lemma span_hex_app ds r : Forall hexd ds -> nohex r -> span_hex (ds ++ r) = (ds, r).
+Proof.
+  intros Hd Hr. induction Hd as [|d ds Hd _ IH]; cbn [app].
+  - destruct r as [|c r]; [reflexivity|]. cbn [span_hex]. cbn in Hr. rewrite Hr. reflexivity.
+  - cbn [span_hex]. rewrite Hd. rewrite IH. reflexivity.
+Qed.
+Lemma hex_value_snoc ds d : hex_value (ds ++ [d]) = 16 * hex_value ds + hex_digit_value d.
+Proof. unfold hex_value. rewrite fold_left_app. reflexivity. Qed.
+Lemma HexDigits_spec ds v : HexDigits ds v -> ds <> [] /\ Forall hexd ds /\ hex_value ds = v.
+Proof.
+  induction 1 as [d Hd|ds v d _ [IH1 [IH2 IH3]] Hd].
+  - repeat split; [discriminate|constructor; [exact Hd|constructor]].
+  - repeat split.
+    + destruct ds; discriminate.
+    + apply Forall_app. split; [exact IH2|constructor; [exact Hd|constructor]].
+    + rewrite hex_value_snoc, IH3. reflexivity.
+Qed.
+Lemma HexDigits_intro ds : ds <> [] -> Forall hexd ds -> HexDigits ds (hex_value ds).
+Proof.
+  induction ds as [|d ds IH] using rev_ind; [intros H; contradiction|]. intros _ Hf.
+  apply Forall_app in Hf. destruct Hf as [Hf Hd]. inversion Hd as [|d' l' Hd' _]; subst.
+  rewrite hex_value_snoc. destruct ds as [|d0 ds'].
+  - cbn [app]. change (hex_value []) with 0. rewrite N.mul_0_r, N.add_0_l. apply HD_digit. exact Hd'.
+  - apply HD_more; [apply IH; [discriminate|exact Hf]|exact Hd'].
+Qed.
+Lemma hex_run_spec n : forall l acc v r, hex_run n l acc = Some (v, r) ->
+  exists hs, l = hs ++ r /\ length hs = n /\ Forall hexd hs /\ v = fold_left hex_step hs acc.
+Proof.
+  induction n as [|n IH]; intros l acc v r; cbn [hex_run].
+  - intros [= <- <-]. exists []. repeat split. constructor.
+  - destruct l as [|c l']; [discriminate|]. destruct (hex_digit c) eqn:Ec; [|discriminate]. intros H.
+    apply IH in H. destruct H as [hs [-> [Hl [Hf ->]]]]. exists (c :: hs). repeat split.
+    + cbn [length]. rewrite Hl. reflexivity.
+    + constructor; assumption.
+Qed.
+Lemma hex_run_app hs : Forall hexd hs -> forall r acc, hex_run (length hs) (hs ++ r) acc = Some (fold_left hex_step hs acc, r).
+Proof.
+  induction 1 as [|h hs Hh _ IH]; intros r acc; [reflexivity|]. cbn [length app hex_run fold_left]. rewrite Hh. apply IH.
+Qed.
+Lemma hex_run_none n : forall l acc, hex_run n l acc = None ->
+  forall hs r, length hs = n -> Forall hexd hs -> l <> hs ++ r.
+Proof.
+  intros l acc Hn hs r Hl Hf ->. subst n. rewrite (hex_run_app hs Hf) in Hn. discriminate.
+Qed.
+Lemma Hex4Digits_run hs v r : Hex4Digits hs v -> hex_run 4 (hs ++ r) 0 = Some (v, r).
+Proof.
+  intros [Hd Hl]. apply HexDigits_spec in Hd. destruct Hd as [_ [Hf <-]]. rewrite <- Hl. apply (hex_run_app hs Hf).
+Qed.
+Lemma run_Hex4Digits l v r : hex_run 4 l 0 = Some (v, r) -> exists hs, l = hs ++ r /\ Hex4Digits hs v.
+Proof.
+  intros H. apply hex_run_spec in H. destruct H as [hs [-> [Hl [Hf ->]]]]. exists hs. split; [reflexivity|].
+  split; [|exact Hl]. apply HexDigits_intro; [destruct hs; [discriminate|discriminate]|exact Hf].
+Qed.
+Lemma hexd_not_special hs : Forall hexd hs -> Forall (fun c => c <> g_backslash /\ c <> g_lbrace /\ c <> g_rbrace) hs.
+Proof.
+  apply Forall_impl. intros c Hc. unfold hexd in Hc. repeat split; intros ->; discriminate Hc.
+Qed.
+
+Lemma sp_codepoint_complete ds v r : HexDigits ds v -> v <= 1114111 -> sp_codepoint (g_lbrace :: ds ++ g_rbrace :: r) = SOk true r.
+Proof.
+  intros Hd Hv. apply HexDigits_spec in Hd. destruct Hd as [Hne [Hf <-]]. cbn [sp_codepoint]. rewrite N.eqb_refl.
+  rewrite (span_hex_app ds _ Hf) by reflexivity. rewrite (is_nil_false ds Hne). rewrite N.eqb_refl. cbn [andb].
+  apply N.leb_le in Hv. rewrite Hv. reflexivity.
+Qed.
+Lemma sp_codepoint_sound l b r : sp_codepoint l = SOk b r ->
+  (b = true /\ exists ds v, HexDigits ds v /\ v <= 1114111 /\ l = g_lbrace :: ds ++ g_rbrace :: r) \/ (b = false /\ r = l).
+Proof.
+  destruct l as [|c l']; cbn [sp_codepoint]; [intros [= <- <-]; right; split; reflexivity|].
+  destruct (N.eqb_spec c g_lbrace) as [->|_]; [|intros [= <- <-]; right; split; reflexivity].
+  destruct (span_hex_spec l') as [E1 [F1 _]]. destruct (span_hex l') as [ds r1]. cbn [fst snd] in *.
+  destruct (is_nil ds) eqn:En; [intros [= <- <-]; right; split; reflexivity|].
+  destruct r1 as [|c1 r2]; [intros [= <- <-]; right; split; reflexivity|].
+  destruct ((c1 =? g_rbrace) && (hex_value ds <=? 1114111))%bool eqn:Et; [|intros [= <- <-]; right; split; reflexivity].
+  apply andb_true_iff in Et. destruct Et as [Ec Ev]. apply N.eqb_eq in Ec. subst c1. apply N.leb_le in Ev.
+  intros [= <- <-]. left. split; [reflexivity|]. exists ds, (hex_value ds). split; [|split; [exact Ev|rewrite E1; reflexivity]].
+  apply HexDigits_intro; [intros ->; discriminate En|exact F1].
+Qed.
+
+Lemma sp_fixed_hex_false n l b r : sp_fixed_hex n l = (b, r) -> b = false -> r = l /\ hex_run n l 0 = None.
+Proof. unfold sp_fixed_hex. destruct (hex_run n l 0) as [[v r0]|]; intros [= <- <-]; [discriminate|]. intros _. split; reflexivity. Qed.
+Lemma sp_surrogate_pair_true l r : sp_surrogate_pair l = (true, r) ->
+  exists hs v ts w, Hex4Digits hs v /\ lead_surrogate v = true /\ Hex4Digits ts w /\ trail_surrogate w = true /\
+                    l = hs ++ g_backslash :: 117 :: ts ++ r.
+Proof.
+  unfold sp_surrogate_pair. destruct (hex_run 4 l 0) as [[v r1]|] eqn:E1; [|discriminate].
+  destruct (lead_surrogate v) eqn:El; [|discriminate].
+  destruct r1 as [|b [|x r2]]; try discriminate.
+  destruct ((b =? g_backslash) && (x =? 117))%bool eqn:Eb; [|discriminate].
+  apply andb_true_iff in Eb. destruct Eb as [Eb Ex]. apply N.eqb_eq in Eb, Ex. subst b x.
+  destruct (hex_run 4 r2 0) as [[w r3]|] eqn:E2; [|discriminate].
+  destruct (trail_surrogate w) eqn:Et; [|discriminate]. intros [= <-].
+  apply run_Hex4Digits in E1, E2. destruct E1 as [hs [-> Hh]]. destruct E2 as [ts [-> Ht]].
+  exists hs, v, ts, w. repeat split; try assumption; apply Hh || apply Ht.
+Qed.
+Lemma sp_surrogate_pair_complete hs v ts w r : Hex4Digits hs v -> lead_surrogate v = true -> Hex4Digits ts w ->
+  trail_surrogate w = true -> sp_surrogate_pair (hs ++ g_backslash :: 117 :: ts ++ r) = (true, r).
+Proof.
+  intros Hh Hl Ht Hw. unfold sp_surrogate_pair. rewrite (Hex4Digits_run hs v _ Hh). rewrite Hl.
+  rewrite N.eqb_refl. cbn [N.eqb Pos.eqb andb]. rewrite (Hex4Digits_run ts w _ Ht). rewrite Hw. reflexivity.
+Qed.
+Lemma sp_surrogate_pair_lone hs v r : Hex4Digits hs v -> (lead_surrogate v = true -> ~ trail_escape_follows r) ->
+  sp_surrogate_pair (hs ++ r) = (false, hs ++ r).
+Proof.
+  intros Hh Hn. unfold sp_surrogate_pair. rewrite (Hex4Digits_run hs v _ Hh).
+  destruct (lead_surrogate v) eqn:El; [|reflexivity]. specialize (Hn eq_refl).
+  destruct r as [|b [|x r2]]; try reflexivity.
+  destruct ((b =? g_backslash) && (x =? 117))%bool eqn:Eb; [|reflexivity].
+  apply andb_true_iff in Eb. destruct Eb as [Eb Ex]. apply N.eqb_eq in Eb, Ex. subst b x.
+  destruct (hex_run 4 r2 0) as [[w r3]|] eqn:E2; [|reflexivity].
+  destruct (trail_surrogate w) eqn:Et; [|reflexivity]. exfalso. apply Hn.
+  apply run_Hex4Digits in E2. destruct E2 as [ts [-> Ht]]. exists ts, w, r3. repeat split; assumption || apply Ht.
+Qed.
+Lemma sp_surrogate_pair_false l b r : sp_surrogate_pair l = (b, r) -> b = false -> r = l.
+Proof.
+  unfold sp_surrogate_pair. intros H Hb. subst b.
+  repeat match type of H with
+         | (match ?x with _ => _ end) = _ => destruct x
+         | (if ?x then _ else _) = _ => destruct x
+         | (let '(_, _) := ?x in _) = _ => destruct x
+         end; inversion H; reflexivity.
+Qed.
+
 (* ================= soundness ================= *)
 Lemma skip_lazy_cases r : skip_lazy r = r \/ r = g_question :: skip_lazy r.
 Proof. destruct r as [|q r']; [left; reflexivity|]. cbn [skip_lazy]. destruct (N.eqb_spec q g_question) as [->|_]; [right|left]; reflexivity. Qed.
@@ -180,6 +315,111 @@ Proof.
   - rewrite app_nil_r. change t with ([] ++ t). apply A_term; [apply A_empty|exact Ht].
   - rewrite app_assoc. apply A_term; [|exact Ht']. apply IH. rewrite <- app_assoc in Ht. exact Ht.
 Qed.
+
+Section EscapeSound.
+Variable u : bool.
+Lemma sp_hex_esc_sound l b r : sp_hex_esc u l = SOk b r ->
+  (b = true /\ exists h1 h2, l = 120 :: h1 :: h2 :: r /\ hex_digit h1 = true /\ hex_digit h2 = true) \/
+  (b = false /\ r = l /\ forall h1 h2 r', hex_digit h1 = true -> hex_digit h2 = true -> l <> 120 :: h1 :: h2 :: r').
+Proof.
+  destruct l as [|c l']; cbn [sp_hex_esc]; [intros [= <- <-]; right; repeat split; discriminate|].
+  destruct (N.eqb_spec c 120) as [->|Hc]; [|intros [= <- <-]; right; repeat split; congruence].
+  unfold sp_fixed_hex. destruct (hex_run 2 l' 0) as [[v r0]|] eqn:E.
+  - intros [= <- <-]. left. split; [reflexivity|]. apply hex_run_spec in E. destruct E as [hs [-> [Hl [Hf _]]]].
+    destruct hs as [|h1 [|h2 [|h3 hs]]]; try discriminate Hl. exists h1, h2. split; [reflexivity|].
+    inversion Hf as [|? ? H1 Hf']; subst. inversion Hf' as [|? ? H2 _]; subst. split; assumption.
+  - destruct u; [discriminate|]. intros [= <- <-]. right. repeat split. intros h1 h2 r' H1 H2 [= ->].
+    cbn [hex_run] in E. rewrite H1, H2 in E. discriminate.
+Qed.
+Lemma sp_unicode_esc_sound l b r : sp_unicode_esc u l = SOk b r ->
+  (b = true /\ exists w, l = 117 :: w ++ r /\ w <> [] /\ RegExpUnicodeEscapeSequence u (117 :: w) r) \/
+  (b = false /\ r = l /\ forall hs v r', Hex4Digits hs v -> l <> 117 :: hs ++ r').
+Proof.
+  destruct l as [|c l']; cbn [sp_unicode_esc]; [intros [= <- <-]; right; repeat split; discriminate|].
+  destruct (N.eqb_spec c 117) as [->|Hc]; [|intros [= <- <-]; right; repeat split; congruence].
+  destruct (if u then sp_surrogate_pair l' else (false, l')) as [b1 r1] eqn:E1.
+  destruct b1.
+  { destruct u eqn:Eu; [|discriminate E1]. intros [= <- <-]. left. split; [reflexivity|].
+    apply sp_surrogate_pair_true in E1. destruct E1 as [hs [v [ts [w [Hh [Hl [Ht [Hw ->]]]]]]]].
+    exists (hs ++ g_backslash :: 117 :: ts). split; [rewrite <- app_assoc; reflexivity|]. split; [destruct hs; discriminate|].
+    apply (UE_pair true hs v ts w r1 eq_refl Hh Hl Ht Hw). }
+  destruct (sp_fixed_hex 4 l') as [b2 r2] eqn:E2. destruct b2.
+  { intros [= <- <-]. left. split; [reflexivity|]. unfold sp_fixed_hex in E2.
+    destruct (hex_run 4 l' 0) as [[v r0]|] eqn:E; [|discriminate]. injection E2 as <-.
+    apply run_Hex4Digits in E. destruct E as [hs [-> Hh]]. exists hs. split; [reflexivity|].
+    split; [destruct Hh as [_ Hl]; destruct hs; discriminate|].
+    apply (UE_hex4 u hs v r0 Hh). intros -> Hl Hf. destruct Hf as [ts [w [r' [Ht [Hw ->]]]]].
+    rewrite (sp_surrogate_pair_complete hs v ts w r' Hh Hl Ht Hw) in E1. discriminate. }
+  destruct (sp_fixed_hex_false _ _ _ _ E2 eq_refl) as [_ Hnone].
+  assert (Hno : forall hs v r', Hex4Digits hs v -> 117 :: l' <> 117 :: hs ++ r').
+  { intros hs v r' Hh [= ->]. rewrite (Hex4Digits_run hs v r' Hh) in Hnone. discriminate. }
+  destruct u eqn:Eu.
+  - destruct (sp_codepoint l') as [[|] r3| |] eqn:E3; try discriminate. intros [= <- <-]. left. split; [reflexivity|].
+    apply sp_codepoint_sound in E3. destruct E3 as [[_ [ds [v [Hd [Hv ->]]]]]|[E3 _]]; [|discriminate].
+    exists (g_lbrace :: ds ++ [g_rbrace]). split; [cbn [app]; rewrite <- app_assoc; reflexivity|]. split; [discriminate|].
+    apply (UE_code_point true ds v r3 eq_refl Hd Hv).
+  - intros [= <- <-]. right. repeat split. exact Hno.
+Qed.
+Lemma identity_true_cases c : identity_escape true c = true ->
+  character_class_escape c = false /\ control_escape c = false /\ (c =? 99) = false /\ (c =? 48) = false /\
+  (c =? 120) = false /\ (c =? 117) = false /\ assertion_escape c = false.
+Proof.
+  cbn [identity_escape]. unfold syntax_character. cbn [existsb]. intros H.
+  repeat (apply orb_true_iff in H; destruct H as [H|H]); try discriminate H; apply N.eqb_eq in H; subst c; repeat split.
+Qed.
+Lemma sp_atom_escape_sound l b r : sp_atom_escape u l = SOk b r ->
+  (b = true /\ exists w, l = w ++ r /\ AtomEscape u w r /\ (forall x w', w = x :: w' -> w' <> [] -> assertion_escape x = false)) \/
+  (b = false /\ r = l).
+Proof.
+  destruct l as [|c l']; cbn [sp_atom_escape]; [destruct u; [discriminate|]; intros [= <- <-]; right; split; reflexivity|].
+  assert (Hone : forall x w', [c] = x :: w' -> w' <> [] -> assertion_escape x = false) by (intros x w' [= <- <-] H; contradiction).
+  destruct (character_class_escape c) eqn:Ecl.
+  { intros [= <- <-]. left. split; [reflexivity|]. exists [c]. split; [reflexivity|]. split; [apply AE_class; exact Ecl|exact Hone]. }
+  destruct (control_escape c) eqn:Eco.
+  { intros [= <- <-]. left. split; [reflexivity|]. exists [c]. split; [reflexivity|].
+    split; [apply AE_character, CE_control; exact Eco|exact Hone]. }
+  destruct ((c =? 99) && starts_letter l')%bool eqn:Ele.
+  { apply andb_true_iff in Ele. destruct Ele as [Ec El]. apply N.eqb_eq in Ec. subst c.
+    destruct l' as [|d l'']; [discriminate El|]. cbn [starts_letter tl] in *. intros [= <- <-]. left. split; [reflexivity|].
+    exists [99; d]. split; [reflexivity|]. split; [apply AE_character, CE_letter; exact El|].
+    intros x w' [= <- <-] _. reflexivity. }
+  destruct ((c =? 48) && negb (starts_digit l'))%bool eqn:Ez.
+  { apply andb_true_iff in Ez. destruct Ez as [Ec Ed]. apply N.eqb_eq in Ec. subst c. apply negb_true_iff in Ed.
+    intros [= <- <-]. left. split; [reflexivity|]. exists [48]. split; [reflexivity|]. split; [|exact Hone].
+    apply AE_character, CE_zero. destruct l' as [|d l'']; [exact I|exact Ed]. }
+  destruct (sp_hex_esc u (c :: l')) as [[|] r1| |] eqn:Eh; try discriminate.
+  { intros [= <- <-]. left. split; [reflexivity|]. apply sp_hex_esc_sound in Eh.
+    destruct Eh as [[_ [h1 [h2 [E [H1 H2]]]]]|[Eh _]]; [|discriminate]. injection E as -> ->.
+    exists [120; h1; h2]. split; [reflexivity|]. split; [apply AE_character, CE_hex; assumption|].
+    intros x w' [= <- <-] _. reflexivity. }
+  apply sp_hex_esc_sound in Eh. destruct Eh as [[Eh _]|[_ [_ Hnohex]]]; [discriminate|].
+  destruct (sp_unicode_esc u (c :: l')) as [[|] r2| |] eqn:Eu; try discriminate.
+  { intros [= <- <-]. left. split; [reflexivity|]. apply sp_unicode_esc_sound in Eu.
+    destruct Eu as [[_ [w [E [Hne HU]]]]|[Eu _]]; [|discriminate]. injection E as -> ->.
+    exists (117 :: w). split; [reflexivity|]. split; [apply AE_character, CE_unicode; exact HU|].
+    intros x w' [= <- <-] _. reflexivity. }
+  apply sp_unicode_esc_sound in Eu. destruct Eu as [[Eu _]|[_ [_ Hnouni]]]; [discriminate|].
+  destruct (identity_escape u c && negb (c =? 48))%bool eqn:Ei.
+  2:{ destruct u; [discriminate|]. intros [= <- <-]. right. split; reflexivity. }
+  apply andb_true_iff in Ei. destruct Ei as [Ei E48]. apply negb_true_iff in E48. apply N.eqb_neq in E48.
+  intros [= <- <-]. left. split; [reflexivity|]. exists [c]. split; [reflexivity|]. split; [|exact Hone].
+  apply AE_character, CE_identity; [exact Ei|]. intros _ [H|[[-> [h1 [h2 [r' [H1 [H2 ->]]]]]]|[-> [hs [v [r' [Hh ->]]]]]]].
+  - contradiction.
+  - exact (Hnohex h1 h2 r' H1 H2 eq_refl).
+  - exact (Hnouni hs v r' Hh eq_refl).
+Qed.
+Lemma sp_escape_sound l b r : sp_escape u l = SOk b r ->
+  (b = true /\ exists w, l = g_backslash :: w ++ r /\ AtomEscape u w r /\
+                          (forall x w', w = x :: w' -> w' <> [] -> assertion_escape x = false)) \/ (b = false /\ r = l).
+Proof.
+  destruct l as [|c l']; cbn [sp_escape]; [intros [= <- <-]; right; split; reflexivity|].
+  destruct (N.eqb_spec c g_backslash) as [->|_]; [|intros [= <- <-]; right; split; reflexivity].
+  destruct (sp_atom_escape u l') as [[|] r1| |] eqn:E; try discriminate; intros [= <- <-].
+  - left. split; [reflexivity|]. apply sp_atom_escape_sound in E. destruct E as [[_ [w [-> H]]]|[E _]]; [|discriminate].
+    exists w. split; [reflexivity|exact H].
+  - right. split; reflexivity.
+Qed.
+End EscapeSound.
 
 Section Sound.
 Variable u : bool.
@@ -236,13 +476,6 @@ Proof.
       assert (HQ : QuantifiableAssertion u (g_lparen :: g_question :: g_bang :: d ++ [g_rparen]) r) by (apply QA_neg_lookahead; exact Hd).
       split; [apply As_lookahead; exact HQ|]. cbn. intros Hu. split; [destruct u; [discriminate|reflexivity]|exact HQ].
 Qed.
-Lemma escape_ok_AtomEscape x : escape_ok u x = true -> AtomEscape u [x].
-Proof.
-  unfold escape_ok. intros H. apply orb_true_iff in H. destruct H as [H|H]; [apply orb_true_iff in H; destruct H as [H|H]|].
-  - apply AE_class; exact H.
-  - apply AE_control; exact H.
-  - apply AE_identity; exact H.
-Qed.
 Lemma sp_brq_noerr_false u0 l r : sp_brq u0 true l = SOk false r -> sp_braced l = None.
 Proof. unfold sp_brq. destruct (sp_braced l) as [[[n om] r']|]; [cbn [negb andb]; discriminate|reflexivity]. Qed.
 Lemma sp_brq_noerr_none u0 l : sp_braced l = None -> sp_brq u0 true l = SOk false l.
@@ -255,10 +488,23 @@ Proof.
   destruct (N.eqb_spec c g_dot) as [->|_].
   { intros [= <- <-]. left. split; [reflexivity|]. exists [g_dot]. split; [reflexivity|apply At_dot]. }
   destruct (N.eqb_spec c g_backslash) as [->|_].
-  { cbn [sp_escape]. destruct l' as [|x r']; cbn [N.eqb Pos.eqb]; [discriminate|]. destruct (escape_ok u x) eqn:Ex; [|discriminate].
-    intros [= <- <-]. left. split; [reflexivity|]. exists [g_backslash; x]. split; [reflexivity|].
-    apply At_escape; [apply escape_ok_AtomEscape; exact Ex|].
-    cbn [sp_assertion] in Hna. cbn [N.eqb Pos.eqb] in Hna. destruct (assertion_escape x); [discriminate|reflexivity]. }
+  { destruct (sp_escape u (g_backslash :: l')) as [[|] r1| |] eqn:Ee; try discriminate.
+    - intros [= <- <-]. left. split; [reflexivity|]. apply (sp_escape_sound u) in Ee.
+      destruct Ee as [[_ [w [E [HA Hlong]]]]|[Ee _]]; [|discriminate]. injection E as ->.
+      exists (g_backslash :: w). split; [reflexivity|]. apply At_escape; [exact HA|].
+      intros c ->. cbn [sp_assertion app] in Hna. cbn [N.eqb Pos.eqb] in Hna. destruct (assertion_escape c); [discriminate|reflexivity].
+    - destruct (bs_c (g_backslash :: l')) eqn:Ebc; [|intros [= <- <-]; right; split; reflexivity].
+      intros [= <- <-]. left. split; [reflexivity|]. exists [g_backslash]. split; [reflexivity|].
+      destruct l' as [|x l'']; [discriminate Ebc|]. cbn [bs_c] in Ebc. rewrite N.eqb_refl in Ebc. cbn [andb] in Ebc.
+      apply N.eqb_eq in Ebc. subst x. destruct u eqn:Eu.
+      + cbn [sp_escape] in Ee. rewrite N.eqb_refl in Ee. exfalso. revert Ee. unfold sp_atom_escape, sp_hex_esc, sp_unicode_esc.
+        cbn [character_class_escape control_escape existsb N.eqb Pos.eqb orb andb identity_escape syntax_character g_slash
+             g_caret g_dollar g_backslash g_dot g_star g_plus g_question g_lparen g_rparen g_lbracket g_rbracket g_lbrace g_rbrace g_bar].
+        destruct (starts_letter l''); discriminate.
+      + apply At_backslash_c; [reflexivity|].
+        cbn [sp_escape] in Ee. rewrite N.eqb_refl in Ee. revert Ee. unfold sp_atom_escape.
+        cbn [character_class_escape control_escape existsb N.eqb Pos.eqb orb andb].
+        destruct l'' as [|d l3]; [intros _; exact I|]. cbn [starts_letter]. destruct (control_letter d); [discriminate|reflexivity]. }
   destruct (N.eqb_spec c g_lparen) as [->|_].
   { assert (Hcap : forall l0, sp_group_body sdisj l0 = SOk b r ->
               b = true /\ exists w, g_lparen :: l0 = w ++ r /\ Atom u w r).
@@ -409,7 +655,8 @@ Proof.
     exfalso. apply sp_braced_sound in Eb. destruct Eb as [q [HB E]].
     exact (Hib eq_refl q r' (ex_intro _ n (ex_intro _ om HB)) E).
   - intros r. split; [discriminate|destruct u; reflexivity].
-  - intros c r _ _. split; [discriminate|destruct u; reflexivity].
+  - intros w r _ _. split; [discriminate|destruct u; reflexivity].
+  - intros r _ _. split; [discriminate|destruct u; reflexivity].
   - intros d r _ _. split; [discriminate|destruct u; reflexivity].
   - intros d r _ _. split; [discriminate|destruct u; reflexivity].
 Qed.
@@ -479,6 +726,65 @@ Lemma app_comm_cons' (a b : list N) c : (a ++ [c]) ++ b = a ++ c :: b.
 Proof. rewrite <- app_assoc. reflexivity. Qed.
 Lemma noq_not_question r q l : noq u r -> r = q :: l -> (q =? g_question) = false.
 Proof. intros H ->. apply noq_head in H. unfold is_quant_char in H. apply orb_false_iff in H. apply H. Qed.
+
+Lemma sp_hex_esc_not_x u0 c r : (c =? 120) = false -> sp_hex_esc u0 (c :: r) = SOk false (c :: r).
+Proof. intros H. cbn [sp_hex_esc]. rewrite H. reflexivity. Qed.
+Lemma sp_unicode_esc_not_u u0 c r : (c =? 117) = false -> sp_unicode_esc u0 (c :: r) = SOk false (c :: r).
+Proof. intros H. cbn [sp_unicode_esc]. rewrite H. reflexivity. Qed.
+Lemma sp_unicode_esc_complete w r : RegExpUnicodeEscapeSequence u w r -> sp_unicode_esc u (w ++ r) = SOk true r.
+Proof.
+  intros [hs v ts x r0 Hu Hh Hl Ht Hw|hs v r0 Hh Hn|ds v r0 Hu Hd Hv]; cbn [app sp_unicode_esc]; cbn [N.eqb Pos.eqb].
+  - rewrite Hu. rewrite <- app_assoc. cbn [app]. rewrite (sp_surrogate_pair_complete hs v ts x r0 Hh Hl Ht Hw). reflexivity.
+  - assert (E1 : (if u then sp_surrogate_pair (hs ++ r0) else (false, hs ++ r0)) = (false, hs ++ r0)).
+    { destruct u eqn:Eu; [|reflexivity]. apply (sp_surrogate_pair_lone hs v r0 Hh). intros Hl. exact (Hn eq_refl Hl). }
+    rewrite E1. unfold sp_fixed_hex. rewrite (Hex4Digits_run hs v r0 Hh). reflexivity.
+  - rewrite Hu. rewrite <- app_assoc. cbn [app].
+    assert (Hrun : hex_run 4 (g_lbrace :: ds ++ g_rbrace :: r0) 0 = None) by reflexivity.
+    unfold sp_surrogate_pair, sp_fixed_hex. rewrite Hrun. rewrite (sp_codepoint_complete ds v r0 Hd Hv). reflexivity.
+Qed.
+Lemma sp_atom_escape_complete w r : AtomEscape u w r -> sp_atom_escape u (w ++ r) = SOk true r.
+Proof.
+  intros [c r0 Hc|w0 r0 HC]; [cbn [app sp_atom_escape]; rewrite Hc; reflexivity|].
+  destruct HC as [c r0 Hc|c r0 Hc|r0 Hn|h1 h2 r0 H1 H2|w0 r0 HU|c r0 Hi Hn].
+  - cbn [app sp_atom_escape]. destruct (character_class_escape c); [reflexivity|]. rewrite Hc. reflexivity.
+  - cbn [app sp_atom_escape]. cbn [character_class_escape control_escape existsb N.eqb Pos.eqb orb andb starts_letter tl].
+    rewrite Hc. reflexivity.
+  - cbn [app sp_atom_escape]. cbn [character_class_escape control_escape existsb N.eqb Pos.eqb orb andb].
+    assert (E : starts_digit r0 = false) by (destruct r0 as [|d r1]; [reflexivity|exact Hn]). rewrite E. reflexivity.
+  - cbn [app sp_atom_escape]. cbn [character_class_escape control_escape existsb N.eqb Pos.eqb orb andb sp_hex_esc].
+    unfold sp_fixed_hex. cbn [hex_run]. rewrite H1, H2. reflexivity.
+  - pose proof (sp_unicode_esc_complete w0 r0 HU) as E.
+    assert (Hw : exists w', w0 = 117 :: w') by (destruct HU; eexists; reflexivity). destruct Hw as [w' ->].
+    cbn [app] in *. cbn [sp_atom_escape]. cbn [character_class_escape control_escape existsb N.eqb Pos.eqb orb andb].
+    rewrite sp_hex_esc_not_x by reflexivity. rewrite E. reflexivity.
+  - cbn [app sp_atom_escape]. destruct (character_class_escape c) eqn:Ecl; [reflexivity|].
+    destruct (control_escape c) eqn:Eco; [reflexivity|].
+    destruct u eqn:Eu.
+    + destruct (identity_true_cases c Hi) as [_ [_ [E99 [E48 [E120 [E117 _]]]]]]. rewrite E99, E48. cbn [andb].
+      rewrite sp_hex_esc_not_x by exact E120. rewrite sp_unicode_esc_not_u by exact E117. rewrite Hi. reflexivity.
+    + specialize (Hn eq_refl). cbn [identity_escape] in Hi. apply negb_true_iff in Hi. rewrite Hi. cbn [andb].
+      assert (E48 : (c =? 48) = false) by (apply N.eqb_neq; intros ->; apply Hn; left; reflexivity). rewrite E48. cbn [andb].
+      assert (Eh : sp_hex_esc false (c :: r0) = SOk false (c :: r0)).
+      { destruct (N.eqb_spec c 120) as [->|Hc]; [|apply sp_hex_esc_not_x; apply N.eqb_neq; exact Hc].
+        cbn [sp_hex_esc N.eqb Pos.eqb]. unfold sp_fixed_hex. destruct (hex_run 2 r0 0) as [[v r1]|] eqn:E; [|reflexivity].
+        exfalso. apply Hn. right. left. split; [reflexivity|]. apply hex_run_spec in E. destruct E as [hs [-> [Hl [Hf _]]]].
+        destruct hs as [|h1 [|h2 [|h3 hs]]]; try discriminate Hl. exists h1, h2, r1.
+        inversion Hf as [|? ? H1 Hf']; subst. inversion Hf' as [|? ? H2 _]; subst. repeat split; assumption. }
+      rewrite Eh.
+      assert (Eu' : sp_unicode_esc false (c :: r0) = SOk false (c :: r0)).
+      { destruct (N.eqb_spec c 117) as [->|Hc]; [|apply sp_unicode_esc_not_u; apply N.eqb_neq; exact Hc].
+        cbn [sp_unicode_esc N.eqb Pos.eqb]. unfold sp_fixed_hex. destruct (hex_run 4 r0 0) as [[v r1]|] eqn:E; [|reflexivity].
+        exfalso. apply Hn. right. right. split; [reflexivity|]. apply run_Hex4Digits in E. destruct E as [hs [-> Hh]].
+        exists hs, v, r1. split; [exact Hh|reflexivity]. }
+      rewrite Eu'. cbn [identity_escape]. rewrite Hi. reflexivity.
+Qed.
+Lemma AtomEscape_head w r : AtomEscape u w r -> exists x w', w = x :: w' /\ (w' <> [] -> assertion_escape x = false).
+Proof.
+  intros [c r0 Hc|w0 r0 HC]; [exists c, []; split; [reflexivity|intros H; contradiction]|].
+  destruct HC as [c r0 Hc|c r0 Hc|r0 Hn|h1 h2 r0 H1 H2|w0 r0 HU|c r0 Hi Hn];
+    try (eexists; eexists; split; [reflexivity|intros H; first [contradiction|reflexivity]]).
+  destruct HU; eexists; eexists; (split; [reflexivity|intros _; reflexivity]).
+Qed.
 
 Lemma completeness_mut :
   (forall d r, Disjunction u d r -> P_D d r) /\ (forall a r, Alternative u a r -> P_A a r) /\
@@ -561,11 +867,16 @@ Proof.
         exact (Hib eq_refl q r' (ex_intro _ n (ex_intro _ om HB)) E).
     + cbn [sp_assertion]. rewrite H4, H5, H2, H3. reflexivity.
   - (* At_dot *) intros r f _. split; reflexivity.
-  - (* At_escape *) intros c r He Hne f _. cbn [app sp_atom sp_assertion sp_escape]. cbn [N.eqb Pos.eqb negb syntax_character existsb orb].
-    rewrite Hne. split; [|reflexivity].
-    assert (Hok : escape_ok u c = true).
-    { unfold escape_ok. inversion He as [c0 H0|c0 H0|c0 H0]; subst; rewrite H0; rewrite ?orb_true_r; reflexivity. }
-    rewrite Hok. reflexivity.
+  - (* At_escape *) intros w r He Hne f _.
+    pose proof (sp_atom_escape_complete w r He) as Ec. destruct (AtomEscape_head w r He) as [x [w' [-> Hx]]].
+    assert (Hax : assertion_escape x = false).
+    { destruct w' as [|y w'']; [apply Hne; reflexivity|apply Hx; discriminate]. }
+    cbn [app] in *. cbn [sp_atom sp_assertion sp_escape]. cbn [N.eqb Pos.eqb]. rewrite Ec, Hax. split; reflexivity.
+  - (* At_backslash_c *) intros r Hu Hl f _. cbn [app sp_atom sp_assertion sp_escape bs_c]. cbn [N.eqb Pos.eqb andb assertion_escape orb].
+    split; [|reflexivity]. rewrite Hu in *.
+    unfold sp_atom_escape. cbn [character_class_escape control_escape existsb N.eqb Pos.eqb orb andb].
+    assert (E : starts_letter r = false) by (destruct r as [|d r1]; [reflexivity|exact Hl]). rewrite E.
+    reflexivity.
   - (* At_group *) intros d r Hd IHd f Hlen.
     pose proof (proj1 (grammar_heads u) d _ Hd) as Hqd.
     cbn [app sp_atom sp_assertion]. rewrite app_comm_cons'. cbn [N.eqb Pos.eqb negb syntax_character existsb orb].
